@@ -5,6 +5,7 @@ import (
 	"fmt"
 
 	"github.com/mutagen-io/mutagen/pkg/selection"
+	"github.com/mutagen-io/mutagen/pkg/synchronization"
 	"github.com/mutagen-io/mutagen/pkg/url"
 )
 
@@ -42,6 +43,20 @@ func (s *CreationSpecification) ensureValid() error {
 	// Verify that the beta-specific configuration is valid.
 	if err := s.ConfigurationBeta.EnsureValid(true); err != nil {
 		return fmt.Errorf("invalid beta-specific configuration: %w", err)
+	}
+
+	// Verify that the effective (merged) configuration for each endpoint is
+	// valid. The endpoint-specific configurations are validated above without
+	// any knowledge of the session-wide configuration, so values whose validity
+	// depends on session-wide settings (e.g. a default file mode with
+	// executability bits, which is only allowed if the effective permissions
+	// mode isn't portable) can only be checked once merged. This is the same
+	// validation that endpoints perform at initialization.
+	if err := synchronization.MergeConfigurations(s.Configuration, s.ConfigurationAlpha).EnsureValid(false); err != nil {
+		return fmt.Errorf("invalid effective alpha configuration: %w", err)
+	}
+	if err := synchronization.MergeConfigurations(s.Configuration, s.ConfigurationBeta).EnsureValid(false); err != nil {
+		return fmt.Errorf("invalid effective beta configuration: %w", err)
 	}
 
 	// Verify that the name is valid.
